@@ -20,8 +20,10 @@ def run(chk: core.Check):
         "forced-schedule controller + guarded hooks in /repo; behaviour discovery on the real engine",
         "translator harness/translate.py (fail-closed Python-ast -> Gallina for count_failure / is_stopped / _STATUS_ORDER, regenerated every run, "
         "tied to the model by the C12_gen_*_eq theorems)",
+        "ModelU_C12.v (outcome cache: lookup and store as separate steps) tied by logging the real get_cached_outcome / cache_outcome calls; "
+        "ModelR_C12.v (sliding-window guard) is a model of FOREIGN code (pyrate_limiter), validated per run against the real limiter's grants",
         "NOT modelled (foreign code, contracts only exercised by the free-run oracle): Hypothesis max_examples / stateful_step_count, "
-        "pyrate-limiter windows and runtime jitter, the stateful phase's own failure counting",
+        "runtime jitter between grant and arrival, the stateful phase's own failure counting and step_outcomes cache",
     ]
     chk.assumptions = ["Hypothesis stops generating after max_examples valid examples when nothing fails",
                        "pyrate-limiter blocks try_acquire until the bucket has room (checked only up to +workers jitter per window)"]
@@ -90,6 +92,10 @@ def run(chk: core.Check):
 
     free = free_runs(chk, (10 if quick else 120) * (10 if chk.broken else 1))
     chk.stages["free_runs"] = free
+    from harness.props import c12_extra
+
+    chk.stages["unique_inputs"] = c12_extra.unique_stage(chk, (8 if quick else 80) * (3 if chk.broken else 1))
+    chk.stages["rate_limit"] = c12_extra.rate_stage(chk, (3 if quick else 25) * (3 if chk.broken else 1))
     for f in chk.findings:
         chk.known(f, False)
 
@@ -227,11 +233,9 @@ def free_runs(chk, n):
             cfg = {"unique_inputs": True, "workers": workers, "seed": k}
             dup = [t for t, c in Counter((r["method"], r["target"], r["body"]) for r in reqs).items() if c > 1]
             chk.seen(cfg, len(reqs) > 2)
-            if dup and workers == 1:
+            if dup:
+                # every operation is handled by one worker (C12_unique_never_sent_twice, hypothesis checked in stage unique_inputs)
                 chk.fail(f"the same request was sent {len(dup)} time(s) twice with unique_inputs", {**cfg, "dup": str(dup[:2])})
-            elif dup:
-                # two workers may both miss the cache for the same input at the same moment: runtime behaviour outside the model
-                chk.count("unique_dups_multi_worker")
         elif kind == "rate":
             limit = rng.choice([5, 10, 20])
             evs, reqs = run_engine(ops_schema(2), U.make_responder(["ok", "ok"]), phases=["fuzzing"], workers=workers, max_examples=limit + 3, seed=k,
